@@ -10,7 +10,9 @@ No hooks in /repo: bound methods of one Scheduler instance are wrapped (as harne
 """
 from __future__ import annotations
 
+import os
 import random
+import shutil
 
 from redun import Scheduler
 from redun.backends.db import Argument, CallEdge, CallNode
@@ -37,6 +39,26 @@ class Run:
         self.error = None
         self.deadlock = False
         self.rows = None
+        self.shared_objects = False   # some argument / result contained one object twice (see has_shared_object)
+
+
+def has_shared_object(value) -> bool:
+    """True if one container or Handle OBJECT occurs twice inside `value`.  The value hash is the hash
+    of the pickle, and pickle writes the second occurrence of an object as a back reference, so such
+    a value hashes differently from an equal value built from distinct objects."""
+    seen = set()
+
+    def walk(v):
+        if isinstance(v, (list, tuple, dict, set, Handle)):
+            if id(v) in seen:
+                return True
+            seen.add(id(v))
+        if isinstance(v, (list, tuple, set)):
+            return any(walk(x) for x in v)
+        if isinstance(v, dict):
+            return any(walk(k) or walk(x) for k, x in v.items())
+        return False
+    return walk(value)
 
 
 def _normal_rows(s):
@@ -48,11 +70,38 @@ def _normal_rows(s):
     return {"call_nodes": cns, "arguments": args, "edges": edges}
 
 
-def run_prog(prog, limits: dict, rng: random.Random, root_args=(), complete_prob=0.3, chooser=None):
+class DbTemplate:
+    """A migrated, empty sqlite file that is copied for every run (the schema migration of a fresh
+    database costs as much as a whole run of a small program)."""
+
+    def __init__(self):
+        import tempfile
+        base = os.environ.get("VERIF_TMP") or ("/dev/shm" if os.access("/dev/shm", os.W_OK) else None)
+        self.dir = tempfile.mkdtemp(prefix="rv_c07_", dir=base)
+        self.tpl = os.path.join(self.dir, "tpl.db")
+        s = Scheduler(config=Config({"backend": {"db_uri": f"sqlite:///{self.tpl}"}}))
+        s.logger.disabled = True
+        s.load()
+        s.backend.session.close()
+        s.backend.engine.dispose()
+        self.n = 0
+
+    def fresh(self) -> str:
+        self.n += 1
+        p = os.path.join(self.dir, "run.db")
+        shutil.copy(self.tpl, p)
+        return f"sqlite:///{p}"
+
+    def close(self):
+        shutil.rmtree(self.dir, ignore_errors=True)
+
+
+def run_prog(prog, limits: dict, rng: random.Random, root_args=(), complete_prob=0.3, chooser=None, db=None):
     """chooser(list of held jobs, Run) -> index, or None for a seeded random choice."""
     tasks = vm_c07.instantiate(prog)
     tindex = {t.fullname: i for i, t in enumerate(tasks)}
-    cfg = {"backend": {"db_uri": "sqlite:///:memory:"}, "limits": {k: str(v) for k, v in limits.items()}}
+    cfg = {"backend": {"db_uri": db.fresh() if db else "sqlite:///:memory:"},
+           "limits": {k: str(v) for k, v in limits.items()}}
     ex = ControlledExecutor()
     s = Scheduler(config=Config(cfg), executor=ex)
     s.load()
@@ -116,6 +165,8 @@ def run_prog(prog, limits: dict, rng: random.Random, root_args=(), complete_prob
             R.first_entry_seq.append(j)
         r = orig_enter(job, eval_args)
         R.entries[j].append(job.args_hash)
+        if job.args is not None and any(has_shared_object(a) for a in job.args[0]):
+            R.shared_objects = True
         if state["collapse"] is not None:
             d = ("collapse", state["collapse"])
         elif state["cached"] is not None:
@@ -151,6 +202,8 @@ def run_prog(prog, limits: dict, rng: random.Random, root_args=(), complete_prob
         r = orig_resolve(job, result)
         R.call_hash[j] = job.call_hash
         R.res_hash[j] = s.type_registry.get_hash(result)
+        if has_shared_object(result):
+            R.shared_objects = True
         R.events.append(("resolve", j))
         return r
     s._resolve_job_main_thread = _resolve_job_main_thread
@@ -188,6 +241,9 @@ def run_prog(prog, limits: dict, rng: random.Random, root_args=(), complete_prob
     except Exception as e:  # noqa
         R.error = (type(e).__name__, str(e))
     R.rows = _normal_rows(s)
+    if db:
+        s.backend.session.close()
+        s.backend.engine.dispose()
     R.handle_forks = [dict(j.handle_forks) for j in R.jobs]
     R.ok = R.error is None and not R.deadlock
     return R
